@@ -83,12 +83,20 @@ def gen_cases(seed, tier):
                 cnt = rng.randint(0, nent - off)
                 c["indexes"].append(("ix%d" % k, off, cnt))
             c["indexes"].append(("all", 0, nent))
+        if i % 4 == 3:
+            c["delayed"] = True       # the same integers handed over as delayed values (Value::UnsignedWord / SignedWord)
         cases.append(c)
     # corpus: the shapes behind D4 (signed widths) and D5 (variant ending with a constant column / empty variants)
     cases.append(dict(id="e_d4", stores=["plain"], variant_order=[], sort=None, indexes=[], finds=[],
                       props=[dict(variant=None, kind="s", name="a"), dict(variant=None, kind="s", name="b")],
                       entries=[dict(variant=None, values={"a": ("s", 128), "b": ("s", -1000)}),
                                dict(variant=None, values={"a": ("s", -129), "b": ("s", 5)})]))
+    # the same signed shapes given as delayed values: widths must include the sign byte there too
+    cases.append(dict(id="e_d4w", stores=["plain"], variant_order=[], sort=None, indexes=[], finds=[], delayed=True,
+                      props=[dict(variant=None, kind="s", name="a"), dict(variant=None, kind="s", name="b"), dict(variant=None, kind="u", name="c")],
+                      entries=[dict(variant=None, values={"a": ("s", 200), "b": ("s", -1000), "c": ("u", 255)}),
+                               dict(variant=None, values={"a": ("s", 1), "b": ("s", 5), "c": ("u", 65536)}),
+                               dict(variant=None, values={"a": ("s", -2), "b": ("s", 3), "c": ("u", 0)})]))
     cases.append(dict(id="e_d5a", stores=["plain"], variant_order=["A", "B"], sort=None, indexes=[], finds=[],
                       props=[dict(variant="A", kind="u", name="x"), dict(variant="A", kind="u", name="k"),
                              dict(variant="B", kind="u", name="y")],
